@@ -225,32 +225,32 @@ def applyBinary (a : Prim α) (op : BinOp) (b : Prim α) : Res α :=
   | .other .undefined => .error .undefinedUse
   | .other _ => .error .unsupportedBin
 
-/-- `impl ApplyOp for Primitive :: apply_unary_op`.  The two `panic` results are the unchecked
-`-self` / `-(*self as i64)` at `i64::MIN` (debug builds; release builds wrap). -/
+/-- `impl ApplyOp for Primitive :: apply_unary_op` (as of /repo 964974c: `checked_neg` for `i64`,
+`0i64.checked_sub_unsigned(u)` for `u64` — the negation that does not fit `i64` is the `Overflow` error). -/
 def applyUnary (op : UnOp) (a : Prim α) : Res α :=
   match a, op with
   | .boolean b, .not => .ok (.boolean (!b))
   | .boolean b, .neg => .ok (.number (neg (boolF b)))
   | .number x, .neg => .ok (.number (neg x))
-  | .integer i, .neg => if i = i64Min then .error .panic else .ok (.integer (-i))
-  | .pint u, .neg => if u64AsI64 u = i64Min then .error .panic else .ok (.integer (-(u64AsI64 u)))
+  | .integer i, .neg => ofI64 (checkedI64 (-i))
+  | .pint u, .neg => ofI64 (checkedI64 (-(u : Int)))
   | .other .undefined, _ => .error .undefinedUse
   | _, _ => .error .unsupportedUn
 
-/-- the operand on which the unchecked `-self` / `-(*self as i64)` overflows -/
+/-- the code BEFORE the repair (`UnOp::Neg => Ok(Primitive::Integer(-self))`, `-(*self as i64)`): kept as
+the regression reference — the two `panic` results are the unchecked negations at `i64::MIN`
+(debug builds; release builds wrap). -/
+def applyUnaryUnchecked (op : UnOp) (a : Prim α) : Res α :=
+  match a, op with
+  | .integer i, .neg => if i = i64Min then .error .panic else .ok (.integer (-i))
+  | .pint u, .neg => if u64AsI64 u = i64Min then .error .panic else .ok (.integer (-(u64AsI64 u)))
+  | a, op => applyUnary op a
+
+/-- the operand on which the unchecked `-self` / `-(*self as i64)` overflowed -/
 def negatesMin : Prim α → Bool
   | .integer i => i == i64Min
   | .pint u => u64AsI64 u == i64Min
   | _ => false
-
-
-/-- `checked_neg` / `0i64.checked_sub_unsigned(u)` -/
-def applyUnaryFixed (op : UnOp) (a : Prim α) : Res α :=
-  match a, op with
-  | .integer i, .neg => ofI64 (checkedI64 (-i))
-  | .pint u, .neg => ofI64 (checkedI64 (-(u : Int)))
-  | a, op => applyUnary op a
-
 
 /-! ### casts (`TransformError::WrongArgument` is the only failure) -/
 
